@@ -1,4 +1,5 @@
 import AL.Model.Proc
+import AL.Model.ShellVisit
 import Driver.Util
 namespace Driver.ProcD
 open AL.Proc Driver
@@ -67,6 +68,43 @@ def handleToolResult : List String → String
         match res with
         | .fatal => "fatal"
         | .diags n => s!"diags {n}"
+  | _ => "bad-op"
+
+open AL.ShellVisit in
+/-- `shellvisit <workflow>`: workflow = (hasDefaultsRun, shell|N, (job…)), job = (hasDefaultsRun, shell|N, (label…), (step…)),
+step = (shell|N, isRun). Output: jobs separated by `;`, steps by `,`, each `<shell handed to shellcheck or ->/<pyflakes 0|1>` -/
+def handleShellVisit : List String → String
+  | [w] =>
+    let optStr : SExp → Option (Option String) := fun e => match e with
+      | .atom "N" => some none
+      | x => x.str?.map some
+    let lst : SExp → Option (List SExp) := fun e => match e with
+      | .atom "E" => some []
+      | .list l => some l
+      | _ => none
+    let stepOf : SExp → Option StepS := fun e => match e with
+      | .list [sh, r] => do pure { shell := (← optStr sh), isRun := (← r.nat?) = 1 }
+      | _ => none
+    let jobOf : SExp → Option JobS := fun e => match e with
+      | .list [h, sh, ls, ss] => do
+        pure { hasDefaultsRun := (← h.nat?) = 1, defShell := (← optStr sh), labels := (← (← lst ls).mapM SExp.str?), steps := (← (← lst ss).mapM stepOf) }
+      | _ => none
+    match readSExp w with
+    | some (.list [h, sh, js]) =>
+      match (do
+        let jobs ← (← lst js).mapM jobOf
+        pure ({ hasDefaultsRun := (← h.nat?) = 1, defShell := (← optStr sh), jobs := jobs } : WfS)) with
+      | some wf =>
+        let sc := (scWorkflow lower ScSt.init wf).2
+        let py := (pyWorkflow PySt.init wf).2
+        ";".intercalate ((sc.zip py).map fun (a, b) =>
+          ",".intercalate ((a.zip b).map fun (s, p) =>
+            let tool := match s with
+              | some eff => (shellcheckShell eff).getD "-"
+              | none => "-"
+            s!"{tool}/{if p then 1 else 0}"))
+      | none => "bad-op"
+    | _ => "bad-op"
   | _ => "bad-op"
 
 end Driver.ProcD
